@@ -199,7 +199,7 @@ func (c *Ctx) carrierArgs(callee *ssa.Function, site ssa.CallInstruction) (args 
 
 func isReflectValue(t types.Type) bool {
 	n := namedOf(t)
-	return n != nil && n.Obj().Pkg() != nil && n.Obj().Pkg().Path() == "reflect" && (n.Obj().Name() == "Value" || n.Obj().Name() == "Type")
+	return n != nil && n.Obj().Pkg() != nil && n.Obj().Pkg().Path() == "reflect" && (objName(n.Obj()) == "Value" || objName(n.Obj()) == "Type")
 }
 
 func (c *Ctx) classifyRecEdge(caller, callee *ssa.Function, site ssa.CallInstruction) *recEdge {
